@@ -955,13 +955,65 @@ def r13_memo(ctx, rule):
     memo_discipline(ctx, rule, ['trainer.py'], 'lib_trainer/pcfg_password_parser.py::PCFGPasswordParser.parse')
 
 
+def r16_nonempty_is_not_long_enough(ctx, rule):
+    """Parsing never raises: a constant index k >= 1 (or <= -2) into a local sequence is not justified by a test that only says
+    the sequence is non-empty.  Contradiction rule - the code believes it must check before indexing, and checks too little:
+    `if rest and rest[1].isdigit()` raises IndexError when exactly one element is left (seed C05-j).  Sites where the guards on
+    the way to the index mention the length (len(x) compared, an index compared with len(x) - c) are left to the index-domain
+    rules R1/R2."""
+    n = 0
+    bad = False
+    for rel, m in sorted(ctx.repo.modules.items()):
+        if not rel.startswith('lib_trainer/detection_rules/'):
+            continue
+        for lname, fn in sorted(m.funcs.items()):
+            q = '%s::%s' % (rel, lname)
+            for node in walk_local(fn):
+                if not (isinstance(node, ast.Subscript) and isinstance(node.ctx, ast.Load)):
+                    continue
+                k = const(node.slice)
+                if not isinstance(k, int) or isinstance(k, bool) or k in (0, -1):
+                    continue
+                n += 1
+                x = U(node.value)
+                # conditions that hold where the index is evaluated: enclosing tests, earlier guards, and - inside an `and` - the
+                # operands to the left
+                conds = []
+                cur = node
+                par = m.parents.get(id(cur))
+                while par is not None and not isinstance(par, ast.stmt):
+                    if isinstance(par, ast.BoolOp) and isinstance(par.op, ast.And):
+                        idx = next((i for i, v in enumerate(par.values) if v is cur), None)
+                        if idx:
+                            conds += [(v, True) for v in par.values[:idx]]
+                    if isinstance(par, ast.IfExp) and cur is par.body:
+                        conds.append((par.test, True))
+                    cur, par = par, m.parents.get(id(par))
+                if par is not None:
+                    conds += list(path_conditions(m, par))
+                    if isinstance(par, ast.If) and not any(cur is t_ for t_ in [par.test]):
+                        pass
+                mentions_len = any('len(%s)' % x in U(t) for t, pol in conds)
+                nonempty = any((U(t) == x and pol) or (U(t) == 'not %s' % x and not pol) or
+                               (U(t) in ('len(%s) > 0' % x, 'len(%s) >= 1' % x, 'len(%s) != 0' % x) and pol) for t, pol in conds)
+                if nonempty and not any('len(%s)' % x in U(t) and U(t) not in ('len(%s) > 0' % x, 'len(%s) >= 1' % x, 'len(%s) != 0' % x)
+                                        for t, pol in conds):
+                    bad = True
+                    ctx.bad(rule, q, '%s[%d] guarded only by "%s is not empty"' % (x, k, x),
+                            'a non-empty sequence has one element for sure, index %d needs %d: the input that leaves exactly %s behind '
+                            'raises IndexError out of the detector, and parsing a password must never raise'
+                            % (k, k + 1 if k > 0 else -k, 'one element' if abs(k) in (1, 2) else 'fewer elements'), None, node)
+    if ctx.floor(rule, 'lib_trainer/detection_rules/', n, 5, 'constant indexes other than 0 / -1 into local sequences') and not bad:
+        ctx.ok(rule, 'lib_trainer/detection_rules/', 'no constant index is justified by a mere non-emptiness test (%d sites)' % n)
+
+
 def rules(tier):
     return [('C05.R1', r1_splice_discipline), ('C05.R2', r2_slice_tiling), ('C05.R4', r4_multiword_parts),
             ('C05.R5', r5_totality), ('C05.R6', r6_counter_pairing), ('C05.R7', r7_index_space), ('C05.R8', r8_constants),
             ('C05.R10', r10_keyboard_single_layout),
             ('C05.R11', r11_multiword_training_runs), ('C05.R12', _validated_input),
             ('C05.R13', r13_memo), ('C05.R14', r14_consumers_read_only),
-            ('C05.R15', r15_layout_siblings_agree)]
+            ('C05.R15', r15_layout_siblings_agree), ('C05.R16', r16_nonempty_is_not_long_enough)]
 
 
 META = {
